@@ -64,6 +64,17 @@ class World:
             elif kind == "leave":
                 await self.e.leaveNetwork()
                 self.log.append(f"D{op}:ok[]")
+            elif kind in ("leave2", "form2", "leaveform"):
+                # a caller that repeats / chains operations without yielding in between (a retry loop, leave-then-form)
+                params = t.EmberNetworkParameters(extendedPanId=t.ExtendedPanId([1] * 8), panId=0x1234, radioTxPower=8, radioChannel=15,
+                                                  joinMethod=t.EmberJoinMethod.USE_MAC_ASSOCIATION, nwkManagerId=0, nwkUpdateId=0, channels=0)
+                for step, which in enumerate({"leave2": "ll", "form2": "ff", "leaveform": "lf"}[kind]):
+                    if which == "l":
+                        await self.e.leaveNetwork()
+                    else:
+                        await self.e.formNetwork(params)
+                    self.log.append(f"P{op}:{step}")
+                self.log.append(f"D{op}:ok[]")
             elif kind == "up":
                 if self.app is None:
                     self.app = shim.make_app()
@@ -133,6 +144,23 @@ class World:
             else:
                 val = {"up": t.EmberStatus.NETWORK_UP, "down": t.EmberStatus.NETWORK_DOWN, "other": t.EmberStatus.NETWORK_OPENED}[st]
             self.loop.iterate([(self.e.handle_callback, "stackStatusHandler", [val])])
+            self.loop.settle()
+        elif k == "Y":
+            # the command's response and a stack-status event in ONE loop iteration (one read carrying both frames)
+            _, order, stn = ev.split("=")
+            cbs = []
+            if self.queue:
+                op, name, fut = self.queue[0]
+                ok = t.sl_Status.OK if v14 else t.EmberStatus.SUCCESS
+                cbs.append((fut.set_result, (ok,)))
+            if v14:
+                val = {"up": t.sl_Status.NETWORK_UP, "down": t.sl_Status.NETWORK_DOWN}[stn]
+            else:
+                val = {"up": t.EmberStatus.NETWORK_UP, "down": t.EmberStatus.NETWORK_DOWN}[stn]
+            cbs.append((self.e.handle_callback, "stackStatusHandler", [val]))
+            if order == "er":
+                cbs.reverse()
+            self.loop.iterate(cbs)
             self.loop.settle()
         elif k == "I":
             tag = int(ev[2:])
@@ -267,6 +295,42 @@ def oracle(w, mev, timeouts):
     return None
 
 
+def chain_cases(ctx):
+    """(version, kind, events, expected outcome of the whole chain)"""
+    out = []
+    ev_of = {"l": "down", "f": "up"}
+    for version in (4, 8, 14):
+        for kind, seq in (("leave2", "ll"), ("form2", "ff"), ("leaveform", "lf")):
+            # every way of delivering (response, event) of each step: separately, or together in one iteration (response first)
+            for modes in itertools.product(("sep", "re"), repeat=2):
+                evs = [f"B=1={kind}"]
+                for which, mode in zip(seq, modes):
+                    if mode == "sep":
+                        evs += ["R=ok", f"E={ev_of[which]}"]
+                    else:
+                        evs += [f"Y=re={ev_of[which]}"]
+                out.append((version, kind, evs, "ok[]"))
+            # the second step is refused / never gets its event
+            out.append((version, kind, [f"B=1={kind}", f"Y=re={ev_of[seq[0]]}", "R=refused"], "refused"))
+            out.append((version, kind, [f"B=1={kind}", f"Y=re={ev_of[seq[0]]}", "R=ok", "T"], "timeout"))
+    return out
+
+
+def run_chain(version, kind, evs):
+    w = World(version)
+    try:
+        for ev in evs:
+            if ev == "T" and w.loop.next_timer() is None:
+                continue
+            if ev[0] == "R" and not w.queue:
+                continue
+            w.do(ev)
+            w.do("W")
+    finally:
+        w.close()
+    return w
+
+
 def scripts(ctx):
     rng = ctx.rng
     out = []
@@ -349,6 +413,22 @@ def run(ctx):
                     break
         if i % 3000 == 5:
             ctx.sample({"version": v, "events": mev[:10], "impl": [[en, st] for _, en, st in w.events][:6]})
+    # operations chained by one caller without yielding, with a step's response and event arriving in one loop iteration
+    for version, kind, evs, want in chain_cases(ctx):
+        w = run_chain(version, kind, evs)
+        ctx.cov["evaluations"] += 1
+        ctx.count("chain:" + kind)
+        done = [e for _, en, _ in w.events for e in en if e[0] == "D"]
+        st = w.events[-1][2] if w.events else ""
+        got = done[0].split(":", 1)[1] if done else "still-waiting"
+        bad = None
+        if got != want:
+            bad = (f"v{version} {kind}: a caller that runs the two operations back to back ended with '{got}', expected '{want}' "
+                   f"(each step's command succeeded and its stack-status event arrived after its listener was registered) - events {evs}")
+        elif "lup=0 ldown=0" not in st:
+            bad = f"v{version} {kind}: stack-status listeners remain registered after the chain ended ({st}) - events {evs}"
+        if bad:
+            ctx.violation(bad, {"kind": "event-op-chain"}, {"version": version, "chain": kind, "events": evs, "want": want})
     # callbacks registered for an operation are its own: the registry never hands a live registration's id to another
     # (model + theorems: BV.Registry / c06_registry_*; the same differential as in C06, here for the list operations)
     from harness.props import c06 as _c06
@@ -384,6 +464,15 @@ def replay(ctx, obj):
 
         ops, outs, bad = _c06.run_registry(4, [tuple(x) for x in r["registry"]])
         print(f"replay registry {r['registry']}: {'FAILS: ' + bad if bad else 'ok'}")
+        if bad:
+            print(f"VIOLATION property={ctx.pid} replay=replay")
+        return 1 if bad else 0
+    if "chain" in r:
+        w = run_chain(r["version"], r["chain"], r["events"])
+        done = [e for _, en, _ in w.events for e in en if e[0] == "D"]
+        got = done[0].split(":", 1)[1] if done else "still-waiting"
+        bad = None if got == r["want"] and "lup=0 ldown=0" in w.events[-1][2] else f"chain ended with {got}, expected {r['want']} ({w.events[-1][2]})"
+        print(f"replay chain v{r['version']} {r['events']}: {'FAILS: ' + bad if bad else 'ok'}")
         if bad:
             print(f"VIOLATION property={ctx.pid} replay=replay")
         return 1 if bad else 0
